@@ -71,7 +71,10 @@ class C17(Prop):
             "bodies), sharded over 16 processes. For each LRU: lru_variations / Traph.expand_prefix raise nothing, list the LRU "
             "first, no entry twice, every entry differs from it only in the scheme stem and a trailing www host stem, the set "
             "equals an independent stem-level specification, and expanding ANY member yields the same set (closure). On a "
-            "sample, a fresh index fed one page under each member reports the same created prefix set. non-trivial = >= 2 "
+            "sample of sites, for each member of the class a fresh index receives its first page (the site prefix itself, or a page just "
+            "below it) through each write entry point (add_page, add_pages, add_links, index_batch_crawl), once via the default rule "
+            "and once via an anchored rule: the reported prefix sets must be the same whichever member was seen first, and every "
+            "reported prefix must really carry the reported id afterwards. non-trivial = >= 2 "
             "host stems or a path body containing 's:http'.")
     QUICK = (0, 0)
     THOROUGH = (0, 0)
@@ -133,23 +136,45 @@ class C17(Prop):
         members = [bytes(x) for x in lru_variations(site)]
         # once through the default rule, once through a rule anchored on the scheme stem of every member
         anchored = {stems_of(m)[0]: "subdomain" for m in members}
-        for cfg in (Config(backend="memory", default_rule="subdomain"),
-                    Config(backend="memory", default_rule="domain", rules=anchored)):
-            seen = None
-            for m in members:
-                c = Case(self, ctx, cfg.copy(), None)
-                try:
-                    out = c.idx.apply(("page", m + b"p:first|", False))
-                    if out.status != "ok":
-                        self._fail(ctx, case, "index-exception", "add_page under %r: %r" % (m, out.exc), lru, "class-on-index")
-                    sets = sorted(sorted(ps) for ps in out.created.values())
-                finally:
-                    c.abort()
-                if seen is None:
-                    seen = (m, sets)
-                elif sets != seen[1]:
-                    self._fail(ctx, case, "class-on-index", "site %r (%s): first page under %r creates %r, first page under %r creates %r"
-                               % (site, "anchored rule" if cfg.rules else "default rule", seen[0], seen[1], m, sets), lru, "class-on-index")
+        # through every write entry point, with the first page being the site prefix itself or a page just below it
+        entries = (lambda l: ("page", l, False), lambda l: ("pages", [l], True), lambda l: ("pages", [l], False),
+                   lambda l: ("links", [(l, l + b"p:second|")]), lambda l: ("batch", [(l, [l + b"p:second|"])], 1))
+        for ci, cfg in enumerate((Config(backend="memory", default_rule="subdomain"),
+                                  Config(backend="memory", default_rule="domain", rules=anchored))):
+            for ei, entry in enumerate(entries):
+                for below in (b"p:first|", b""):
+                    seen = None
+                    for m in members:
+                        c = Case(self, ctx, cfg.copy(), None)
+                        try:
+                            out = c.idx.apply(entry(m + below))
+                            if out.status != "ok":
+                                self._fail(ctx, case, "index-exception", "%s under %r: %r" % (entry(b"")[0], m, out.exc), lru, "class-on-index")
+                            sets = sorted(sorted(ps) for ps in out.created.values())
+                            # attached as a whole: every reported prefix really carries the reported id afterwards
+                            for weid, ps in out.created.items():
+                                for v in ps:
+                                    try:
+                                        g = c.t.get_webentity_by_prefix(v)
+                                    except Exception as e:
+                                        g = repr(e)
+                                    if g != weid:
+                                        self._fail(ctx, case, "class-not-attached", "site %r, first request %s on %r: the report says webentity %r owns %r, get_webentity_by_prefix gives %r"
+                                                   % (site, entry(b"")[0], m + below, weid, v, g), lru, "class-on-index")
+                            try:
+                                r = c.t.retrieve_webentity(m + below)
+                            except Exception as e:
+                                r = repr(e)
+                            if out.created and r not in out.created:
+                                self._fail(ctx, case, "class-not-attached", "site %r, first request %s on %r: the page resolves to %r, created %r"
+                                           % (site, entry(b"")[0], m + below, r, sorted(out.created)), lru, "class-on-index")
+                        finally:
+                            c.abort()
+                        if seen is None:
+                            seen = (m, sets)
+                        elif sets != seen[1]:
+                            self._fail(ctx, case, "class-on-index", "site %r (%s, %s): first page under %r creates %r, first page under %r creates %r"
+                                       % (site, "anchored rule" if cfg.rules else "default rule", entry(b"")[0], seen[0], seen[1], m, sets), lru, "class-on-index")
         return True
 
     def extra_checks(self, ctx, tier, seed, shard, nshards):
